@@ -169,6 +169,33 @@ Proof.
   rewrite (Qmodpos_compat _ _ m E). apply Qmodpos_shift. exact Hm.
 Qed.
 
+Lemma Qmodpos_inner_l b c m : 0 < m -> Qmodpos (Qmodpos b m + c) m == Qmodpos (b + c) m.
+Proof.
+  intros Hm.
+  rewrite (Qmodpos_compat (Qmodpos b m + c) (c + Qmodpos b m) m) by ring.
+  rewrite Qmodpos_inner by exact Hm. apply Qmodpos_compat. ring.
+Qed.
+Lemma Qmodpos_inner_sub_l b c m : 0 < m -> Qmodpos (Qmodpos b m - c) m == Qmodpos (b - c) m.
+Proof.
+  intros Hm.
+  rewrite (Qmodpos_compat (Qmodpos b m - c) ((- c) + Qmodpos b m) m) by ring.
+  rewrite Qmodpos_inner by exact Hm. apply Qmodpos_compat. ring.
+Qed.
+Lemma Qmodpos_inner_neg b m : 0 < m -> Qmodpos (- Qmodpos b m) m == Qmodpos (- b) m.
+Proof.
+  intros Hm.
+  rewrite (Qmodpos_compat (- Qmodpos b m) (0 - Qmodpos b m) m) by ring.
+  rewrite Qmodpos_neg_inner by exact Hm. apply Qmodpos_compat. ring.
+Qed.
+Lemma Qmodpos_eq_shift x a m (k : Z) :
+  0 < m -> x == a + inject_Z k * m -> 0 <= a -> a < m -> Qmodpos x m == a.
+Proof.
+  intros Hm E H0 H1. rewrite (Qmodpos_compat _ _ m E).
+  rewrite Qmodpos_shift by exact Hm. apply Qmodpos_id; assumption.
+Qed.
+Lemma Qmodpos_idem a m : 0 < m -> Qmodpos (Qmodpos a m) m == Qmodpos a m.
+Proof. intros Hm. apply Qmodpos_id; apply Qmodpos_range; exact Hm. Qed.
+
 Definition radians (d : Q) : Q := d * pi / 180.
 Definition degrees (r : Q) : Q := r * 180 / pi.
 
